@@ -35,6 +35,7 @@ func tierFor(tier string) tierCfg {
 func (p *Pipeline) detSelfTest(bin, variant, params string, ref map[int]RunRecord, n int, extraEnv []string) map[string]interface{} {
 	checked, mismatches := 0, 0
 	var firstMismatch string
+	var differing []int
 	for _, cfg := range []struct {
 		gmp     string
 		workers int
@@ -50,6 +51,7 @@ func (p *Pipeline) detSelfTest(bin, variant, params string, ref map[int]RunRecor
 			checked++
 			if r0.LogHash != rec.LogHash {
 				mismatches++
+				differing = append(differing, run)
 				if firstMismatch == "" {
 					firstMismatch = fmt.Sprintf("run %d: %s (reference) vs %s (GOMAXPROCS=%s, %d workers)", run, r0.LogHash, rec.LogHash, cfg.gmp, cfg.workers)
 				}
@@ -66,10 +68,48 @@ func (p *Pipeline) detSelfTest(bin, variant, params string, ref map[int]RunRecor
 	if len(p.DetViolations) > 0 {
 		return map[string]interface{}{"runs_reexecuted": checked, "mismatches": mismatches, "violations_in_reexecutions": len(p.DetViolations)}
 	}
+	historyDependent := 0
 	if mismatches > 0 {
-		fail("determinism self-test failed: %d of %d re-executed runs differ; first: %s", mismatches, checked, firstMismatch)
+		// Whose nondeterminism is it? A run that differs from its reference
+		// because the code under test keeps state across calls (a lazily built
+		// table, a cache, a pool: the event log then depends on what the process
+		// did before) is still a pure function of the tape when it is the FIRST
+		// thing a process does. Every differing run (up to eight) is executed
+		// alone in two fresh processes under different GOMAXPROCS: equal logs
+		// mean the simulator is deterministic and the difference comes from
+		// process history; unequal logs are the simulator's own problem.
+		sort.Ints(differing)
+		seen := map[int]bool{}
+		probed := 0
+		for _, run := range differing {
+			if seen[run] || probed >= 8 {
+				continue
+			}
+			seen[run] = true
+			probed++
+			var hashes []string
+			for _, gmp := range []string{"1", "16"} {
+				env := append([]string{"GOMAXPROCS=" + gmp}, extraEnv...)
+				m := p.runBatch(batchSpec{Label: fmt.Sprintf("det-alone-%d-%s", run, gmp), Bin: bin, Workers: 1, Count: 1, From: run, Budget: 0, Variant: variant, Params: params, Records: true, Env: env})
+				if len(m.Violations) > 0 {
+					p.DetViolations = append(p.DetViolations, m.Violations...)
+				}
+				if rec, ok := m.Records[run]; ok {
+					hashes = append(hashes, rec.LogHash)
+				}
+			}
+			if len(hashes) != 2 || hashes[0] != hashes[1] {
+				fail("determinism self-test failed: %d of %d re-executed runs differ; first: %s; run %d executed alone in two fresh processes gave %v", mismatches, checked, firstMismatch, run, hashes)
+			}
+			historyDependent++
+		}
+		if len(p.DetViolations) > 0 {
+			return map[string]interface{}{"runs_reexecuted": checked, "mismatches": mismatches, "violations_in_reexecutions": len(p.DetViolations)}
+		}
+		p.logf("determinism self-test: %d of %d re-executed runs differ from the reference batch, but each of the %d probed runs is reproducible when it is the first run of a fresh process: the code under test keeps state across calls (cache, pool, lazily built table); the simulator itself is deterministic", mismatches, checked, historyDependent)
 	}
-	return map[string]interface{}{"runs_reexecuted": checked, "process_configurations": "GOMAXPROCS 1/4/16 with 3/5/2 workers (different sharding)", "mismatches": 0}
+	return map[string]interface{}{"runs_reexecuted": checked, "process_configurations": "GOMAXPROCS 1/4/16 with 3/5/2 workers (different sharding)", "mismatches": mismatches,
+		"runs_differing_only_through_process_history_of_the_code_under_test": historyDependent}
 }
 
 // setupVariant puts the scratch module into the state of a variant:
